@@ -28,7 +28,7 @@ Profile profile_for(const std::string &prop, int tier) {
         f.types = {DT_U1, DT_U4, DT_I4, DT_U8, DT_I8, DT_U16, DT_I16, DT_U32, DT_I32, DT_F32, DT_F64, DT_U64, DT_I64}; }
     else if (prop == "C03" || prop == "C19" || prop == "C04") {
         f.reads_fsr = f.reads_stats = f.reads_anno = f.reads_utc = f.reads_user = f.reads_defs = true;
-        f.annos = f.utcs = f.users = true; f.omit_ops = true; f.cblocks = true; f.small_defs_only = true;
+        f.annos = f.utcs = f.users = true; f.omit_ops = false; f.cblocks = false; f.no_omission = true; f.small_defs_only = true;
         f.max_samples = tier ? 40000 : 6000; f.max_signals = 3; f.max_annos = 30; f.max_utcs = 30; f.max_users = 4; f.max_fsr_ops = 16;
         if (prop == "C04") { f.max_samples = tier ? 6000 : 2500; f.max_annos = 12; f.max_utcs = 12; }
     }
@@ -48,7 +48,7 @@ Profile profile_for(const std::string &prop, int tier) {
     else if (prop == "C15") { f.omit_ops = true; f.cblocks = true; f.reads_fsr = true; f.reads_stats = true; f.max_samples = tier ? 400000 : 50000; f.max_signals = 2; }
     else if (prop == "C17") {
         f.reads_fsr = f.reads_stats = f.reads_anno = f.reads_utc = f.reads_user = f.reads_defs = true;
-        f.annos = f.utcs = f.users = true; f.omit_ops = true; f.cblocks = true; f.gaps = true;
+        f.annos = f.utcs = f.users = true; f.omit_ops = false; f.cblocks = false; f.no_omission = true; f.gaps = true;
         f.max_samples = tier ? 200000 : 20000; f.max_signals = 3; f.max_annos = 120; f.max_utcs = 120; f.max_users = 5; f.max_payload = 5000;
     }
     else if (prop == "C10") { f.misuse = true; f.annos = f.utcs = f.users = true; f.reads_fsr = f.reads_stats = f.reads_anno = f.reads_utc = f.reads_user = f.reads_defs = f.reads_conv = true;
@@ -92,6 +92,7 @@ int64_t pick_total(Rng &r, const NormDef &nd, int64_t max_samples) {
 }
 
 int pick_gen(Rng &r, int dtype, const Profile &pf) {
+    if (pf.no_omission && dt_bits[dtype] <= 8) { static const int g[] = {G_RAMP, G_RANDOM, G_ALT}; return g[r.below(3)]; }     // never a constant block
     if (pf.cblocks && r.chance(0.6)) return G_CBLOCKS;
     if (dt_is_float(dtype)) { static const int g[] = {G_RAMP, G_RANDOM, G_DECADES, G_RANDOM, G_ALT, G_CONST}; return g[r.below(6)]; }
     static const int g[] = {G_RAMP, G_RANDOM, G_RANDOM, G_ALT, G_CONST, G_CBLOCKS};
@@ -219,7 +220,7 @@ Plan gen_plan(const Profile &pf, uint64_t seed) {
             if (r.chance(0.15)) { g = pick_gen(r, s.dtype, pf); }
             o.g = g; o.gs = (g == G_CBLOCKS) ? gs : r.next();
             // gaps / overlaps
-            if (nops > 0 && pf.gaps && r.chance(0.2)) {
+            if (nops > 0 && pf.gaps && !(pf.no_omission && bits <= 8) && r.chance(0.2)) {
                 int c = (int) r.below(6);
                 int64_t fillbuf = 32768LL * 8 / bits;
                 int64_t gap = c == 0 ? 1 : c == 1 ? r.range(1, 20) : c == 2 ? s.nd.spd + r.range(-1, 1) : c == 3 ? r.range(1, 5 * (int64_t) s.nd.spd) : c == 4 ? fillbuf + r.range(-2, 40) : r.range(1, 3 * (int64_t) s.nd.sdf);
@@ -500,6 +501,11 @@ bool plan_in_domain(const Plan &P, const Profile &pf) {
             else if (o.kind == OP_SIG) { if (!srcs.count(o.src) || !sigs.insert(o.sig).second) return false; }
             else if ((o.kind == OP_FSR || o.kind == OP_OMIT || o.kind == OP_UTC || o.kind == OP_ANNO) && !sigs.count(o.sig)) return false;
         }
+    }
+    if (pf.no_omission) for (auto &o : P.ops) {
+        if (o.kind == OP_OMIT) return false;
+        if (o.kind == OP_FSR && dt_bits[o.dtype] <= 8 && (o.g == G_CONST || o.g == G_CBLOCKS)) return false;
+        if (o.kind == OP_FSR && dt_bits[o.dtype] <= 8 && o.d > 0) return false;      // integer gap fill is a run of zeros, i.e. possibly a constant block
     }
     for (auto &o : P.ops) {
         if (o.kind != OP_FSR) continue;
